@@ -65,6 +65,11 @@ def run(prop, tier, seed, repo):
     rep = Report(prop, tier, seed)
     ctx = Ctx(repo, tier, seed)
     try:
+        from . import linarith
+        broken = linarith.selftest()
+        if broken:
+            print(f'INFRASTRUCTURE-ERROR property={prop}: the equality prover fails its own controls: {broken}')
+            return 2
         fn = props.PROPS.get(prop)
         if fn is None:
             print(f'unknown or unclaimed property {prop}')
@@ -187,7 +192,7 @@ def anchored_sweep(prop, repo, anchors):
     are listed in the evidence.  Never changes the verdict on the tree itself."""
     from . import sweep
     from concurrent.futures import ProcessPoolExecutor
-    muts = sweep.enumerate_mutants(repo, sorted(anchors))
+    muts = sweep.enumerate_mutants(repo, sorted(anchors), sweep.OPS + sweep.OPS2)
     with ProcessPoolExecutor(max_workers=12) as ex:
         res = list(ex.map(_eval_sweep, [(m, repo, prop) for m in muts], chunksize=2))
     triage = {}
